@@ -256,7 +256,8 @@ func semNumbers(c *run.Ctx, seq []string) string {
 	return ""
 }
 
-// calendar position for a pure weekday or pure month set (strict recognisers).
+// calendar position for a pure weekday or pure month set. The recognisers include the common longer abbreviations
+// (tues, thur, thurs, sept): they name the same days / month, so they take that day's / month's position.
 // Weekdays: Monday..Saturday must be in this order; Sunday may open or close
 // the week (both conventions exist), but must not be inside.
 func semCalendar(c *run.Ctx, seq []string) string {
@@ -265,17 +266,17 @@ func semCalendar(c *run.Ctx, seq []string) string {
 	}
 	allWd, allMo := true, true
 	for _, k := range seq {
-		if _, ok := weekdayPos(k, true); !ok {
+		if _, ok := weekdayPos(k, false); !ok {
 			allWd = false
 		}
-		if _, ok := monthPos(k, true); !ok {
+		if _, ok := monthPos(k, false); !ok {
 			allMo = false
 		}
 	}
 	if allMo {
 		for i := 1; i < len(seq); i++ {
-			a, _ := monthPos(seq[i-1], true)
-			b, _ := monthPos(seq[i], true)
+			a, _ := monthPos(seq[i-1], false)
+			b, _ := monthPos(seq[i], false)
 			if a > b {
 				return fmt.Sprintf("month %q is placed before %q", seq[i-1], seq[i])
 			}
@@ -287,14 +288,14 @@ func semCalendar(c *run.Ctx, seq []string) string {
 		var rest []string
 		sundayInside := false
 		for _, k := range seq {
-			if p, _ := weekdayPos(k, true); p != 0 {
+			if p, _ := weekdayPos(k, false); p != 0 {
 				rest = append(rest, k)
 			}
 		}
 		// locate Sundays: positions must all be before the first non-Sunday or after the last one
 		firstNon, lastNon := -1, -1
 		for i, k := range seq {
-			if p, _ := weekdayPos(k, true); p != 0 {
+			if p, _ := weekdayPos(k, false); p != 0 {
 				if firstNon < 0 {
 					firstNon = i
 				}
@@ -303,7 +304,7 @@ func semCalendar(c *run.Ctx, seq []string) string {
 		}
 		before, after := 0, 0
 		for i, k := range seq {
-			if p, _ := weekdayPos(k, true); p == 0 && firstNon >= 0 {
+			if p, _ := weekdayPos(k, false); p == 0 && firstNon >= 0 {
 				if i > firstNon && i < lastNon {
 					sundayInside = true
 				}
@@ -319,8 +320,8 @@ func semCalendar(c *run.Ctx, seq []string) string {
 			return "Sunday is placed inside the week / on both ends"
 		}
 		for i := 1; i < len(rest); i++ {
-			a, _ := weekdayPos(rest[i-1], true)
-			b, _ := weekdayPos(rest[i], true)
+			a, _ := weekdayPos(rest[i-1], false)
+			b, _ := weekdayPos(rest[i], false)
 			if a > b {
 				return fmt.Sprintf("weekday %q is placed before %q", rest[i-1], rest[i])
 			}
